@@ -89,7 +89,7 @@ func rulePanicCensus(w *World, r *RuleResult) {
 				if bo, ok := in.(*ssa.BinOp); ok && bo.Op == token.EQL {
 					for _, o := range []ssa.Value{bo.X, bo.Y} {
 						if k, ok := o.(*ssa.Const); ok && typeIs(k.Type(), apdPath, "Form") {
-							seen[k.Int64()] = true
+							seen[ci(k)] = true
 						}
 					}
 				}
@@ -350,7 +350,7 @@ func (w *World) bigConstValues() map[string]int64 {
 				}
 				if c, ok := st.Val.(*ssa.Call); ok && w.calleeName(c) == "NewBigInt" {
 					if k, ok := c.Common().Args[0].(*ssa.Const); ok {
-						out[g.Name()] = k.Int64()
+						out[g.Name()] = ci(k)
 					}
 				}
 			}
@@ -534,7 +534,7 @@ func upperBound(idx ssa.Value, b *ssa.BasicBlock) (int64, bool) {
 	base, add := idx, int64(0)
 	if bo, ok := idx.(*ssa.BinOp); ok && bo.Op == token.ADD {
 		if k, ok := bo.Y.(*ssa.Const); ok {
-			base, add = bo.X, k.Int64()
+			base, add = bo.X, ci(k)
 		}
 	}
 	if cv, ok := base.(*ssa.Convert); ok {
@@ -554,13 +554,13 @@ func upperBound(idx ssa.Value, b *ssa.BasicBlock) (int64, bool) {
 		okb := true
 		switch {
 		case bo.Op == token.LEQ && g.Val:
-			max = k.Int64()
+			max = ci(k)
 		case bo.Op == token.LSS && g.Val:
-			max = k.Int64() - 1
+			max = ci(k) - 1
 		case bo.Op == token.GTR && !g.Val:
-			max = k.Int64()
+			max = ci(k)
 		case bo.Op == token.GEQ && !g.Val:
-			max = k.Int64() - 1
+			max = ci(k) - 1
 		default:
 			okb = false
 		}
